@@ -275,6 +275,12 @@ impl OsIpcSender {
             fds.push(shared_memory_region.store.fd());
         }
 
+        // The receiver's control buffer holds at most `MAX_FDS_IN_CMSG` descriptors;
+        // anything beyond that would be silently discarded by the kernel on receipt.
+        if fds.len() > MAX_FDS_IN_CMSG as usize {
+            return Err(UnixError::Errno(libc::EMSGSIZE));
+        }
+
         // `len` is the total length of the message.
         // Its value will be sent as a message header before the payload data.
         //
@@ -405,6 +411,11 @@ impl OsIpcSender {
         //
         // The receiver end of the channel is sent with the first fragment
         // along any other file descriptors that are to be transferred in the message.
+        //
+        // That takes one more descriptor slot in the first fragment.
+        if fds.len() + 1 > MAX_FDS_IN_CMSG as usize {
+            return Err(UnixError::Errno(libc::EMSGSIZE));
+        }
         let (dedicated_tx, dedicated_rx) = channel()?;
         // Extract FD handle without consuming the Receiver, so the FD doesn't get closed.
         fds.push(dedicated_rx.fd.get());
